@@ -21,7 +21,7 @@ CELLS = [None, 0, 1, 2, -3, 2.0, 0.5, float('nan'), '', 'x', 'yy', datetime.date
 POOL = 6
 FUNCS = ['is_none', 'typename', 'rep', 'str2', 'const7', 'ident']
 OPS = ['new_records', 'new_columns', 'new_rows', 'new_empty', 'setitem', 'setitem_from', 'update_from', 'delitem', 'update', 'row', 'col', 'cols_tuple', 'slice',
-       'mask', 'take', 'project', 'derive', 'rename', 'do', 'minus', 'copy', 'add', 'iadd', 'add_record', 'add_zero', 'concat', 'sum_rows',
+       'mask', 'take', 'project', 'derive', 'rename', 'do', 'minus', 'copy', 'add', 'iadd', 'add_record', 'add_records', 'add_zero', 'concat', 'sum_rows',
        'inc', 'exc', 'inc_fn', 'inc_all', 'setitem_reject', 'new_reject', 'update_reject']
 
 
@@ -135,7 +135,7 @@ def generate(st):
         'cols': sorted(sw.sample(COLS, sw.randint(2, 6)) + (['data'] if sw.random() < 0.2 else []) + (['columns'] if sw.random() < 0.06 else []) + (['key'] if sw.random() < 0.15 else [])),
         'cells': sorted(sw.sample(range(len(CELLS)), sw.randint(3, len(CELLS)))),
         'faulty': sw.random() < 0.6,
-        'off': sorted(sw.sample(OPS[4:31], sw.randint(0, 8))),
+        'off': sorted(sw.sample(OPS[4:32], sw.randint(0, 8))),
     }
     cells = [CELLS[i] for i in cfg['cells']]
     cols = cfg['cols']
@@ -420,6 +420,12 @@ def _gen_op(o, g, f, cfg, cells, cols, models, rows_n, cell, spec_for):
     if o == 'add_record':
         base = g.sample(cols, g.randint(1, len(cols)))
         return {'op': o, 't': t, 'record': [[c, enc(cell())] for c in base]}
+    if o == 'add_records':
+        recs = []
+        for _ in range(g.choice([2, 2, 3])):
+            base = g.sample(cols, g.randint(1, len(cols)))
+            recs.append([[c, enc(cell())] for c in base])
+        return {'op': o, 't': t, 'records': recs}
     if o == 'add_zero':
         return {'op': o, 't': t, 'z': g.choice([None, 0]), 'right': g.random() < 0.3}
     if o == 'concat':
@@ -765,6 +771,11 @@ def model_apply(op, models):
         if not rec or len({c for c, _ in rec}) != len(rec):
             return ('skip',)
         return ('table', _concat([m, M([c for c, _ in rec], [dict(rec)])]))
+    if o == 'add_records':
+        recs = [[(c, dec(v)) for c, v in r] for r in op['records']]
+        if len(recs) < 2 or any(not r or len({c for c, _ in r}) != len(r) for r in recs):
+            return ('skip',)
+        return ('table', _concat([m] + [M([c for c, _ in r], [dict(r)]) for r in recs]))
     if o == 'add_zero':
         return ('alias', op['t'])
     if o == 'sum_rows':
@@ -1158,6 +1169,8 @@ def real_apply(op, reals, dictable):
         return d
     if o == 'add_record':
         return d + {c: dec(v) for c, v in op['record']}
+    if o == 'add_records':
+        return d + [{c: dec(v) for c, v in r} for r in op['records']]
     if o == 'add_zero':
         return (op['z'] + d) if op.get('right') and op['z'] is not None else d + op['z']
     if o == 'sum_rows':
@@ -1178,7 +1191,7 @@ def real_apply(op, reals, dictable):
 
 
 # ----------------------------------------------------------------------------------------------
-TABLE_MAKERS = {'new_records', 'new_columns', 'new_rows', 'slice', 'mask', 'take', 'project', 'derive', 'rename', 'do', 'minus', 'copy',
+TABLE_MAKERS = {'add_records', 'new_records', 'new_columns', 'new_rows', 'slice', 'mask', 'take', 'project', 'derive', 'rename', 'do', 'minus', 'copy',
                 'add', 'add_record', 'add_zero', 'concat', 'sum_rows', 'inc', 'exc', 'inc_fn', 'inc_all'}
 
 
